@@ -208,10 +208,20 @@ zix_copy_file(ZixAllocator* const  allocator,
 
   // Open a new destination file
   const bool  overwrite = (options == ZIX_COPY_OPTION_OVERWRITE_EXISTING);
-  const int   dst_flags = O_WRONLY | O_CREAT | (overwrite ? O_TRUNC : O_EXCL);
+  const int   dst_flags = O_WRONLY | O_CREAT | (overwrite ? 0 : O_EXCL);
   const int   dst_fd    = zix_system_open_fd(dst, dst_flags, 0644);
   struct stat dst_stat;
   if (dst_fd < 0 || fstat(dst_fd, &dst_stat)) {
+    return finish_copy(dst_fd, src_fd, zix_errno_status(errno));
+  }
+
+  // Fail if the destination is the source itself (it must not be truncated)
+  if (dst_stat.st_dev == src_stat.st_dev && dst_stat.st_ino == src_stat.st_ino) {
+    return finish_copy(dst_fd, src_fd, ZIX_STATUS_BAD_ARG);
+  }
+
+  // Discard any old content of the destination (if it is a file that has any)
+  if (overwrite && S_ISREG(dst_stat.st_mode) && ftruncate(dst_fd, 0)) {
     return finish_copy(dst_fd, src_fd, zix_errno_status(errno));
   }
 
